@@ -473,6 +473,22 @@ class OB:
         self.items.append(Item(label, kind, hyps, goal, expect=expect, replay=replay, poly=poly, pairs=pairs))
         return goal
 
+    def prove_pos_identity(self, label, A, B, under=None, cond=None):
+        """A == B for positive terms built from products, quotients, 10**u and log10: discharged after log-normalisation (sym.logform).
+        Obligations: every opaque atom is > 0 (ordinary hypotheses), and the normal forms agree (a polynomial identity over the atoms' logs,
+        proved with no hypotheses besides `cond`-itions that pick ite branches)."""
+        atoms = {}
+        la, lb = sym.logform(A, atoms), sym.logform(B, atoms)
+        for a in atoms.values():
+            if z3.is_rational_value(a) or z3.is_int_value(a):
+                if not (float(a.as_fraction()) > 0):
+                    raise ValueError(f"{label}: non-positive numeral factor {a}")
+                continue
+            self.prove(f'{label}: factor {str(a)[:60]} > 0', a > 0, under=under, pairs=False)
+        self.items.append(Item(f'{label}: log-normal forms agree', 'post', list(cond or []), la == lb, replay=None, pairs=False))
+        self.trusted("log-normalisation rewriter (lg(ab) = lg a + lg b, lg(a/b) = lg a - lg b, lg(10**u) = u on terms whose atoms are proved positive)")
+        return A == B
+
     def hint(self, which, facts, hide_nonlinear=False):
         """use already proved facts (goals of earlier items / hypotheses) when discharging engine-generated side
         obligations whose label contains `which`; optionally hide the nonlinear hypotheses from the solver"""
